@@ -100,6 +100,14 @@ fn parse_content(
                         Span::new(base_position + position, base_position + end_position),
                     )
                 })?;
+                // the referenced character has to be an XML Char
+                // https://www.w3.org/TR/xml/#wf-Legalchar
+                if !is_xml_char(c) {
+                    return Err(ParseError::InvalidEntity(
+                        entity.to_string(),
+                        Span::new(base_position + position, base_position + end_position),
+                    ));
+                }
                 result.push(c);
             } else {
                 match entity.as_str() {
@@ -131,6 +139,12 @@ fn parse_content(
     } else {
         Ok(result.into())
     }
+}
+
+// https://www.w3.org/TR/xml/#NT-Char
+fn is_xml_char(c: char) -> bool {
+    matches!(c,
+        '\u{9}' | '\u{A}' | '\u{D}' | '\u{20}'..='\u{D7FF}' | '\u{E000}'..='\u{FFFD}' | '\u{10000}'..='\u{10FFFF}')
 }
 
 pub(crate) fn serialize_text<'a, N: Normalizer>(
